@@ -2,6 +2,10 @@
 from elab import passcheck
 
 
+def _reraise():
+    raise
+
+
 def _call(task):
     import traceback
     import importlib
@@ -9,7 +13,8 @@ def _call(task):
     try:
         return fn(**task['kw'])
     except Exception:
-        return dict(failed=True, crashed=True, observed=traceback.format_exc()[-900:], expected='no exception')
+        from vlib.guard import guarded
+        return guarded(_reraise)
 
 
 def lemmas(ctx):
